@@ -1528,6 +1528,9 @@ var handRegexes = []string{
 	"あ|\U0001F600", "[あ-ん]?", ".{2}", "(?:)|a", "a|", `\pM*`, "(?i)A", "b+?", "()", "(?<n1>)", "\n",
 	"^.", ".$", `\A|\z`, "[ab]+", "(?<n1>a+)(?<n2>b*)", "(a)|b", "(?<n1>\U0001F600)?(?<n2>b)?", `[^\n]*`, ".?", "(.)(.)?", ` *`, "(?s).",
 	`\x{fffd}`, `(?<n1>\x{fffd}+)|(?<n2>a)`,
+	// anchors on both sides of literals, alternations and classes (subjects
+	// that contain the literal without being equal to it must not match)
+	"^a$", `\Aab\z`, `^\x{e9}\z`, `\Aa$`, "^$", "^(?:a|\u00e9)$", "^[ab]+$", `\ba\b`, `\Bb\B`, "(?m)^a$", "^(?<n1>a)(?<n2>b)?$",
 }
 
 // genRegex draws a regex Go's regexp accepts; the letters of the subject are
@@ -1563,7 +1566,104 @@ func genRegex(t *rapid.T, subject string) (string, map[string]bool) {
 	return re, g.feat
 }
 
+var leftAnchors = []string{"^", `\A`, "^", `\b`, `\B`, "(?m:^)", "", "(?m)^", `^\b`, `\A^`}
+var rightAnchors = []string{"$", `\z`, "$", `\b`, `\B`, "(?m:$)", "", `\b$`, `$\z`}
+
+// genAnchored draws an anchored regex around a literal core (plain, in a
+// group, in an alternation, as a class) together with a subject that is the
+// literal, contains it at the start / in the middle / at the end / twice /
+// on a line of its own, does not contain it, or is empty.
+func genAnchored(t *rapid.T) (string, string, map[string]bool) {
+	feat := map[string]bool{"anchored-core": true}
+	word := func(label string, min, max int) string {
+		n := rapid.IntRange(min, max).Draw(t, label+"len")
+		var sb strings.Builder
+		for i := 0; i < n; i++ {
+			sb.WriteString(rapid.SampledFrom(rndAlphabet).Draw(t, label))
+		}
+		return sb.String()
+	}
+	lit := word("core", 1, 3)
+	other := word("other", 1, 2)
+	q := regexp.QuoteMeta
+	var core string
+	switch rapid.IntRange(0, 9).Draw(t, "corekind") {
+	case 0, 1, 2, 3:
+		core = q(lit)
+		feat["anchored-literal"] = true
+	case 4:
+		core = "(" + q(lit) + ")"
+	case 5:
+		core = "(?<n1>" + q(lit) + ")"
+		feat["named"] = true
+	case 6:
+		core = "(?:" + q(lit) + "|" + q(other) + ")"
+		feat["alternation"] = true
+	case 7:
+		core = q(lit) + "|" + q(other) // the anchors bind to one branch each
+		feat["alternation"] = true
+	case 8:
+		var sb strings.Builder
+		for _, r := range lit {
+			sb.WriteString(classChar(r))
+		}
+		core = "[" + sb.String() + "]" + rapid.SampledFrom([]string{"", "+", "*", "{1,3}"}).Draw(t, "classrep")
+		feat["class"] = true
+	default:
+		core = q(lit) + "(?:" + q(other) + ")?"
+		feat["quantifier"] = true
+	}
+	left := rapid.SampledFrom(leftAnchors).Draw(t, "left")
+	right := rapid.SampledFrom(rightAnchors).Draw(t, "right")
+	if left != "" && right != "" {
+		feat["anchored-both-sides"] = true
+	}
+	re := left + core + right
+	x, y := word("x", 1, 3), word("y", 1, 3)
+	if rapid.IntRange(0, 3).Draw(t, "xfromcore") == 0 {
+		x = string([]rune(lit)[:1])
+	}
+	var subject string
+	shape := rapid.IntRange(0, 11).Draw(t, "shape")
+	switch shape {
+	case 0:
+		subject = lit
+	case 1:
+		subject = x + lit
+	case 2:
+		subject = lit + x
+	case 3:
+		subject = x + lit + y
+	case 4:
+		subject = lit + lit
+	case 5:
+		subject = lit + x + lit
+	case 6:
+		subject = ""
+	case 7:
+		subject = x
+	case 8:
+		subject = lit + "\n" + x
+	case 9:
+		subject = x + "\n" + lit
+	case 10:
+		subject = x + "\n" + lit + "\n" + y
+	default:
+		subject = x + " " + lit + " " + y
+	}
+	feat[fmt.Sprintf("anchored-subject-shape-%02d", shape)] = true
+	if subject != lit && strings.Contains(subject, lit) {
+		feat["anchored-subject-contains-core"] = true
+	}
+	return subject, re, feat
+}
+
 func genReCase(t *rapid.T) (reCase, map[string]bool) {
+	if rapid.IntRange(0, 4).Draw(t, "anchoredmode") == 0 {
+		s, re, feat := genAnchored(t)
+		fl := genFlags(t)
+		return reCase{S: s, Re: re, Flags: fl, Form: genForm(t, fl)}, feat
+	}
 	s := genSubject(rndAlphabet, 30, true).Draw(t, "subject")
 	re, feat := genRegex(t, s)
 	fl := genFlags(t)
@@ -1836,6 +1936,10 @@ func TestC14(t *testing.T) {
 			sort.Strings(fs)
 			for _, f := range fs {
 				rec.Class("regex/" + f)
+			}
+			if feat["anchored-both-sides"] && feat["anchored-subject-contains-core"] {
+				// the anchors, not the characters, decide: also non-trivial
+				rec.NT(l.name + "\x00" + c.key())
 			}
 			if nt && len(rf.r) > 2 {
 				rec.Sample(map[string]any{"law": l.name, "case": c})
